@@ -37,6 +37,7 @@ type scaleCase struct {
 	SrcLine   string        // ... and quote this text
 	RootEq    string        // when set: the JSON output must denote the same value as this JSON text
 	CLI       bool          // also run the real binary
+	CLIOnly   bool          // only through the binary (a failure would take the worker process with it)
 	ModelWant bool          // no closed form: the expected result is the reference interpreter's (on the implementation's parse, strict mode)
 	Root      bool          // with ModelWant: also compare the JSON output
 	NoModel   bool          // the reference interpreter is not consulted (e.g. its budget would not cover the size)
@@ -192,6 +193,9 @@ func scaleCheck(c *fw.Ctx, f *scaleFam, n int) *fw.Violation {
 	if kind == "" {
 		kind = drive.KNone
 	}
+	if sc.CLIOnly {
+		return scaleCLI(c, f, n, sc, kind)
+	}
 	s := drive.Spec{Program: sc.Prog, Selectors: sc.Sels, WantRoot: sc.RootEq != "", Budget: 5000000 + 400*int64(n)}
 	for _, fl := range sc.Files {
 		s.Files = append(s.Files, drive.File{Name: fl.Name, Data: fl.Text})
@@ -298,6 +302,8 @@ func scaleCLI(c *fw.Ctx, f *scaleFam, n int, sc scaleCase, kind drive.ErrKind) *
 	want := strings.ReplaceAll(sc.Want, "\x00DIR\x00", dir)
 	what := ""
 	switch {
+	case strings.Contains(se2, "goroutine ") || strings.Contains(se2, "fatal error") || strings.Contains(se2, "panic:"):
+		what = "the binary died with a Go runtime crash"
 	case so2 != want:
 		what = "the binary's standard output differs from the closed form"
 	case kind == drive.KNone && exit != 0:
@@ -315,6 +321,9 @@ func scaleCLI(c *fw.Ctx, f *scaleFam, n int, sc scaleCase, kind drive.ErrKind) *
 
 // scaleCrash is C01's reading of a family: whatever the size, the run ends in success or in one of the three error kinds.
 func scaleCrash(c *fw.Ctx, f *scaleFam, n int, sc scaleCase) *fw.Violation {
+	if sc.CLIOnly {
+		return nil // C04 runs it through the binary, where a crash is one of the things looked for
+	}
 	s := drive.Spec{Program: sc.Prog, Selectors: sc.Sels, WantRoot: sc.RootEq != "", Budget: 5000000 + 400*int64(n)}
 	for _, fl := range sc.Files {
 		s.Files = append(s.Files, drive.File{Name: fl.Name, Data: fl.Text})
